@@ -586,21 +586,6 @@ func (f *Func) reachTarget(
 // with the given named arguments. This skips the whole graph creation
 // step by requiring args satisfy all required arguments.
 func (f *Func) callDirect(log hclog.Logger, argMap map[interface{}]reflect.Value) Result {
-	// If we have FuncOnce enabled and we've been called before, return
-	// the result we have cached. We hold the lock until we return so that
-	// concurrent first calls can't both execute the function.
-	if f.once {
-		verifHook("once.enter", f)
-		f.onceMu.Lock()
-		defer f.onceMu.Unlock()
-		verifHook("once.check", f)
-
-		if f.onceResult != nil {
-			log.Trace("returning cached result, FuncOnce enabled")
-			return *f.onceResult
-		}
-	}
-
 	// Initialize the struct we'll be populating
 	var buildErr error
 	structVal := f.input.newStructValue()
@@ -620,9 +605,26 @@ func (f *Func) callDirect(log hclog.Logger, argMap map[interface{}]reflect.Value
 		structVal.Field(val.index).Set(arg)
 	}
 
-	// If there was an error setting up the struct, then report that.
+	// If there was an error setting up the struct, then report that. This
+	// comes before the FuncOnce lookup: a memoized function whose arguments
+	// can't be satisfied in this call must not make the call succeed.
 	if buildErr != nil {
 		return Result{buildErr: buildErr}
+	}
+
+	// If we have FuncOnce enabled and we've been called before, return
+	// the result we have cached. We hold the lock until we return so that
+	// concurrent first calls can't both execute the function.
+	if f.once {
+		verifHook("once.enter", f)
+		f.onceMu.Lock()
+		defer f.onceMu.Unlock()
+		verifHook("once.check", f)
+
+		if f.onceResult != nil {
+			log.Trace("returning cached result, FuncOnce enabled")
+			return *f.onceResult
+		}
 	}
 
 	// Call our function
